@@ -108,7 +108,9 @@ class Endpoint:
             return False
         try:
             self.proto.dataReceived(data)
-        except Exception as e:          # reactor: log, then drop this connection
+        except BaseException as e:      # reactor (posixbase._doReadOrWrite): log, then drop this connection
+            if isinstance(e, (KeyboardInterrupt, SystemExit)):
+                raise
             self.crashes.append(e)
             self.lose(Failure(e))
             return False
